@@ -96,6 +96,57 @@ def run(run):
     finally:
         sys.setswitchinterval(old_si)
     run.bulk(4 * len(jobs), 0)
+    # ---- the module tables queried by several threads at once -----------------
+    # (every connection asks get_id() of the classes it writes, in whatever
+    # thread writes; threads working for different versions must each get
+    # their own version's answer, also with a pre-emption between any two
+    # statements of the table code)
+    expect_ids = {}
+    for pv in supported:
+        ctx = C.ConnectionContext(protocol_version=pv)
+        for direction, state, get_packets in tables:
+            expect_ids[(pv, direction, state)] = sorted(
+                (k.__qualname__, k.get_id(ctx)) for k in get_packets(ctx))
+    qproblems = []
+    qpairs = [(supported[0], supported[-1])] + \
+        [tuple(rng.sample(supported, 2)) for _ in range(3)]
+
+    def querier(pv, rounds):
+        ctx = C.ConnectionContext(protocol_version=pv)
+        for _ in range(rounds):
+            for direction, state, get_packets in tables:
+                try:
+                    got = sorted((k.__qualname__, k.get_id(ctx))
+                                 for k in get_packets(ctx))
+                except Exception as e:
+                    got = repr(e)
+                if got != expect_ids[(pv, direction, state)]:
+                    qproblems.append({
+                        'pv': pv, 'table': '%s/%s' % (direction, state),
+                        'got': [g for g in got if g not in
+                                expect_ids[(pv, direction, state)]][:4]
+                        if isinstance(got, list) else got})
+                    return
+    sys.setswitchinterval(1e-6)
+    try:
+        with LineMonitor(yield_prob=0.25, seed=run.seed) as mon:
+            for pva, pvb in qpairs:
+                ts = [threading.Thread(target=querier, args=(pva, 6)),
+                      threading.Thread(target=querier, args=(pvb, 6)),
+                      threading.Thread(target=querier, args=(pva, 6))]
+                for t in ts:
+                    t.start()
+                for t in ts:
+                    t.join(120.0)
+                run.count('concurrent_table_queries', 3 * 6 * len(tables))
+            run.count('concurrent_table_query_yields', mon.yields)
+    finally:
+        sys.setswitchinterval(old_si)
+    if qproblems:
+        run.violation('table/concurrent-queries', 'a thread querying the '
+                      'tables for its version got another answer than a '
+                      'sequential query gives, while other threads queried '
+                      'them for another version', qproblems[0])
     if problems:
         run.violation('reactor-dict/concurrent-build', 'a reactor built while '
                       'another thread was building one got an incomplete or '
@@ -230,6 +281,59 @@ def run(run):
         for k in sorted(clientbound.play.get_packets(
             C.ConnectionContext(protocol_version=757)),
             key=lambda k: k.__name__)}})
+    # ---- interpreter modes ------------------------------------------------------
+    # (the same tables and reactor dicts in fresh interpreters started plain,
+    # with -O and with -OO: nothing about a protocol table may hang on an
+    # assert statement or a docstring)
+    import json
+    import subprocess
+    from .. import core
+    snaps = {}
+    for flag in ('', '-O', '-OO'):
+        cmd = [sys.executable] + ([flag] if flag else []) + \
+            ['-m', 'vf.checks.c06_snapshot']
+        pr = subprocess.run(cmd, cwd=core.VERIF_DIR, stdout=subprocess.PIPE,
+                            stderr=subprocess.PIPE, timeout=300)
+        if pr.returncode:
+            if flag:
+                run.violation('table/interpreter-mode/raised', 'building the '
+                              'tables raised in an interpreter started with '
+                              + flag, {'stderr': pr.stderr.decode()[-400:]})
+            else:
+                run.inconclusive_because('table snapshot failed: %s'
+                                         % pr.stderr.decode()[-300:])
+            continue
+        snaps[flag] = json.loads(pr.stdout.decode())
+    for flag in ('-O', '-OO'):
+        if '' in snaps and flag in snaps:
+            run.count('interpreter_mode_tables_compared', len(snaps['']) - 1)
+            assert snaps[flag]['optimize'] == len(flag) - 1
+            # (at an id two classes share - the recorded finding - which of
+            # them a reactor's dict holds depends on set order, i.e. on the
+            # process: those entries are left out of the comparison)
+            def contested(pv):
+                ids = set()
+                for k, rows in snaps[''].items():
+                    if k.startswith(pv + ' cb/'):
+                        seen_ids = [r.split('=')[1] for r in rows]
+                        ids |= {i for i in seen_ids if seen_ids.count(i) > 1}
+                return ids
+
+            def norm(k, rows):
+                if ' reactor ' not in k:
+                    return rows
+                bad = contested(k.split(' ')[0])
+                return [r for r in rows if r.split('=')[0] not in bad]
+            diff = [k for k in snaps[''] if k != 'optimize'
+                    and norm(k, snaps[''][k]) != norm(k, snaps[flag].get(k,
+                                                                        []))]
+            if diff:
+                run.violation('table/interpreter-mode', 'a packet table or a '
+                              'reactor\'s id->class dict differs when the '
+                              'interpreter is started with ' + flag,
+                              {'first': diff[0], 'plain': snaps[''][diff[0]][:5],
+                               'optimized': snaps[flag].get(diff[0], [])[:5],
+                               'tables_differing': len(diff)})
     # ---- context objects with a history: reassigned, copied -------------------
     # (Connection.connect() reassigns context.protocol_version; user code may
     # copy a context to describe a second peer.  What a table says for a
@@ -328,6 +432,8 @@ def run(run):
     run.require('reactor_dicts_inspected', 1000)
     run.require('history_table_reads', 5000)
     run.require('context_history_table_reads', 200)
+    run.require('interpreter_mode_tables_compared', 2000)
     run.require('user_subclasses_defined', 50)
     run.require('tables_read_after_user_subclasses', 500)
     run.require('concurrent_reactor_builds', 100)
+    run.require('concurrent_table_queries', 100)
